@@ -214,6 +214,14 @@ func C11(p *load.Prog, r *oblig.Run) {
 	r.Rule("R11.d", "each already-sent map is keyed only by individuals of the side it stands for", 6)
 	r.Rule("R11.e", "a job producer that tests one already-sent map before sending tests every map it marks", 1)
 	sentSides(p, r, "R11.d", "R11.e", concurrentRegion(g, root))
+	r.Rule("R11.f", "util.WorkerPool starts exactly the requested number of workers", 1)
+	workerCount(p, r, "R11.f")
+	r.Rule("R11.g", "a pipeline stage's goroutine does nothing after closing the channel the stage returned", 3)
+	r.Rule("R11.h", "the Left (Right) of every comparison the pipeline builds is an individual of the left (right) list", 4)
+	listSides(p, r, "R11.h", root, concurrentRegion(g, root))
+	stages := []*ssa.Function{p.Func(load.PkgRoot, "createJobs"), p.Method(load.PkgRoot, "IndividualNodesCompareOptions", "processJobs"),
+		p.Method(load.PkgRoot, "IndividualNodesCompareOptions", "collectResults"), p.Method(load.PkgRoot, "IndividualNodesCompareOptions", "calculateWinners")}
+	nothingAfterClose(p, r, "R11.g", stages)
 	channelsClosed(p, r, "R11.c", []*ssa.Function{p.Func(load.PkgRoot, "createJobs"), p.Method(load.PkgRoot, "IndividualNodesCompareOptions", "processJobs"),
 		p.Method(load.PkgRoot, "IndividualNodesCompareOptions", "collectResults"), p.Method(load.PkgRoot, "IndividualNodesCompareOptions", "calculateWinners"), root})
 }
